@@ -270,6 +270,29 @@ def run (ctx : Ctx) (op : Operation) (node : Node) : Nat → St → List Out
 def expand (ctx : Ctx) (op : Operation) (node : Node) (paths : List Path) (fuel : Nat) : List Out :=
   run ctx op node fuel { items := paths }
 
+/-- drain the iterator while the node composition is replaced between `next` calls
+(`PathExpanderIterator::next` takes the node afresh from `Metadata::access` on every call): call `i`
+sees `nodes[i]`; the run stops when the expander is exhausted or the schedule ends -/
+def runSwap (ctx : Ctx) (op : Operation) : List Node → St → List Out
+  | [], _ => []
+  | node :: rest, st =>
+    match next ctx op node st with
+    | none => []
+    | some (o, st') => o :: runSwap ctx op rest st'
+
+/-- the swap run stopped because the expander was exhausted (not because the schedule ran out) -/
+def swapEnded (ctx : Ctx) (op : Operation) : List Node → St → Bool
+  | [], _ => false
+  | node :: rest, st =>
+    match next ctx op node st with
+    | none => true
+    | some (_, st') => swapEnded ctx op rest st'
+
+/-- the documented invariant across node replacements: an endpoint id denotes the same endpoint
+(clusters, leaves, device types) in every composition seen during the request -/
+def stableNodes (nodes : List Node) : Bool :=
+  nodes.all fun n => nodes.all fun n' => n.all fun e => n'.all fun e' => e.id != e'.id || e == e'
+
 /-! ## termination measure of the expander (used by the driver as the number of `next` calls)
 
 The three cursors `(endpoint position, cluster_index, leaf_index)` decrease lexicographically with
@@ -393,5 +416,30 @@ def nodeWF (node : Node) : Bool :=
   (node.map (·.id)).Pairwise (· < ·) &&
   node.all fun e => (e.clusters.map (·.id)).Nodup &&
     e.clusters.all fun c => (c.attrs.map (·.id)).Nodup && (c.cmds.map (·.id)).Nodup
+
+/-! ## specification for a request answered while the node composition changes (`node_swap_safe`) -/
+
+/-- clause 1: the item exists on the node of its call, matches a requested path, is reachable,
+passes the filter and is permitted -/
+def itemPermittedOn (ctx : Ctx) (op : Operation) (node : Node) (paths : List Path) (ep cl lf : Nat) : Bool :=
+  node.any fun e => e.id == ep && reachable ctx e && e.clusters.any fun c => c.id == cl &&
+    (specLeaves c op).any fun l => l.id == lf && ctx.filter ep cl lf && (permitted ctx op e c l).isNone &&
+      paths.any fun p => matchesOpt p.endpoint ep && matchesOpt p.cluster cl && matchesOpt p.leaf lf
+
+/-- clause 3: the leaves a wildcard path owes for endpoints present in every composition seen -/
+def owedThroughout (ctx : Ctx) (op : Operation) (nodes : List Node) (p : Path) : List (Nat × Nat × Nat) :=
+  match nodes with
+  | [] => []
+  | n0 :: rest =>
+    n0.flatMap fun e =>
+      if rest.all (fun n => n.contains e) && matchesOpt p.endpoint e.id && reachable ctx e then
+        e.clusters.flatMap fun c =>
+          if matchesOpt p.cluster c.id then
+            (specLeaves c op).filterMap fun l =>
+              if matchesOpt p.leaf l.id && ctx.filter e.id c.id l.id && (permitted ctx op e c l).isNone then
+                some (e.id, c.id, l.id)
+              else none
+          else []
+      else []
 
 end Expand
